@@ -293,6 +293,25 @@ def interleave(*gens):
                 gens.remove(g)
 
 
+def failing_cases(rng, tier):
+    """Runs that cannot succeed, for a reason that lies in the command line or the input bytes themselves (no injected
+    fault): "a run that fails under one setting fails under all" and terminates under every schedule."""
+    import c17
+    kinds = ["missing", "isdir", "malformed", "gz_trunc", "gz_garbage", "dsl", "dsl_end", "out_schema", "dsl_parse", "two_missing", "malformed", "gz_trunc"]
+    i = 0
+    while True:
+        i += 1
+        r = rng.fork("failing", i)
+        try:
+            c = c17.build_case(r, kinds[(i - 1) % len(kinds)], tier)
+        except Exception:
+            c = None
+        if c is None or c.get("faults") or c.get("children"):
+            continue
+        yield {"kind": "failing", "fault_kind": c.get("fault_kind"), "args": c["args"], "files": c["files"], "cseed": r.randint(1, 1 << 40),
+               "nconf": 4 if tier == "quick" else 7, "sweep": tier != "quick" and r.chance(0.3)}
+
+
 def cases(rng, tier):
     import os
     only = os.environ.get("VERIF_ONLY")
@@ -306,8 +325,9 @@ def cases(rng, tier):
     streams.append(gen.hash_cases(rng.fork("hash"), tier))
     streams.append(gen.race_cases(rng.fork("race"), tier))
     streams.append(gen.alias_cases(rng.fork("alias"), tier))
+    streams.append(failing_cases(rng.fork("failing"), tier))
     if only:
-        streams = [st for st, nm in zip(streams, ["corpus", "chains", "term", "tail", "seed", "hash", "race", "alias"]) if nm in only.split(",")]
+        streams = [st for st, nm in zip(streams, ["corpus", "chains", "term", "tail", "seed", "hash", "race", "alias", "failing"]) if nm in only.split(",")]
     return interleave(*streams)
 
 
